@@ -558,9 +558,12 @@ class FillRequest(object):
                 else:
                     # at least one event present
                     # this would give bad performance for bufsize=1
-                    for val in el_run(chain([val],
-                                            islice(flow, bufsize-1))):
+                    slice_ = chain([val], islice(flow, bufsize-1))
+                    for val in el_run(slice_):
                         yield val
+                    # el might not have read the whole slice
+                    for val in slice_:
+                        pass
                     # usually Run elements have no reset, but...
                     # we call reset here, because we don't call request
                     # (which usually calls reset itself)
@@ -605,7 +608,11 @@ class FillRequest(object):
             # slice_ can be iterated multiple times
             slice_ = slice_iterated_with_count(bufsize, flow)
             while True:
-                results = list(el_run(slice_))
+                slice_iter = iter(slice_)
+                results = list(el_run(slice_iter))
+                # el might not have read the whole slice
+                for val in slice_iter:
+                    pass
                 if slice_.count < bufsize:
                     return
                 for val in results:
